@@ -2,6 +2,7 @@
 
 import contextlib
 import io
+import itertools
 
 import gymnasium as gym
 import jax
@@ -55,6 +56,9 @@ def items(tier, seed):
         for cap in caps:
             for ch in chunks(cheap_scripts, per):
                 out.append(dict(name=f"cheap-{name}-cap{cap}-{ch[0]}", kind="off", routine=name, mode="cheap", cap=cap, warm=10**6, scripts=ch, seed=seed))
+        # reward number type: the first reward is a Python int, later rewards are fractional floats
+        for ch in chunks(senv.scripts(T, "cTU", 1), per):
+            out.append(dict(name=f"cheap-{name}-intfirst-{ch[0]}", kind="off", routine=name, mode="cheap", cap=caps[-1], warm=10**6, scripts=ch, seed=seed, reward_kind="intfirst"))
         if name == "mrq":
             combos = [(4, T + 4), (5, 6)]
         elif name == "dqn":
@@ -83,8 +87,22 @@ def items(tier, seed):
         for ch in chunks(pair_scripts, 30):
             out.append(dict(name=f"ppo-collector-log{int(logger)}-{ch[0][0]}-{ch[0][1]}", kind="ppo", T=Tv, logger=logger, pairs=[list(p) for p in ch], seed=seed))
     # tabular learners: prefix differencing (shared with C14)
+    from checks import c14
+
+    short = {"q_learning": "ql", "sarsa": "sarsa", "double_q_learning": "dql", "monte_carlo": "mc", "dynaq": "dyna"}
     for algo in ("q_learning", "sarsa", "double_q_learning", "monte_carlo", "dynaq"):
-        out.append(dict(name=f"tabular-{algo}", kind="tabular", algo=algo, T=T, tier=tier, seed=seed))
+        names = [c["cfg"] for c in c14.hist_configs(tier, seed) if c["learner"] == short[algo]]
+        # every Dyna-Q configuration (planning from the buffer of visited pairs is part of what is kept for learning),
+        # the first configuration of the others
+        for cname in names if algo == "dynaq" else names[:1]:
+            out.append(dict(name=f"tabular-{algo}-{cname}", kind="tabular", algo=algo, config=cname, T=T, tier=tier, seed=seed))
+        out.append(dict(name=f"tabular-acting-{algo}", kind="tabular", algo=algo, config=None, T=T, tier=tier, seed=seed))
+        # many short episodes, with and without a logger: read the table back (lr 1, gamma 0: Q[o_t, a_t] = r_t)
+        Tl = 12 if q else 14
+        long_scripts = ["T" * Tl, "U" * Tl, "cT" * (Tl // 2), "cU" * (Tl // 2), "TU" * (Tl // 2), ("ccT" * Tl)[:Tl], ("TcU" * Tl)[:Tl]]
+        if not q:
+            long_scripts += [sc for sc in senv.scripts(Tl, "cT", 2)][:40]
+        out.append(dict(name=f"tabular-readback-{algo}", kind="tabular-readback", algo=algo, scripts=long_scripts, seed=seed))
     return out
 
 
@@ -190,6 +208,8 @@ def off_item(item, col):
     for script in item["scripts"]:
         T = len(script)
         cfg = dict(buffer_size=item["cap"], env_horizon=T + 3, seed=1 + item["seed"], net_seed=item["seed"])
+        if item.get("reward_kind"):
+            cfg["reward_kind"] = item["reward_kind"]
         if item["mode"] == "cheap":
             cfg["learning_starts"] = 10**6
             if name in D.DISCRETE:
@@ -206,7 +226,7 @@ def off_item(item, col):
         if item["mode"] == "cheap":
             prebuilt = run.prebuilt
         boundary = any(c in "TUB" for c in script[:-1])
-        col.tick(1, (name, item["mode"], item["cap"], item["warm"], script) if (boundary or T > item["cap"]) else None)
+        col.tick(1, (name, item["mode"], item["cap"], item["warm"], script, item.get("reward_kind")) if (boundary or T > item["cap"]) else None)
         if boundary:
             col.outcome("runs_crossing_an_episode_boundary")
         if run.error is not None:
@@ -533,12 +553,14 @@ def tabular_item(item, col):
     from checks import c14
 
     learner = {"q_learning": "ql", "sarsa": "sarsa", "double_q_learning": "dql", "monte_carlo": "mc", "dynaq": "dyna"}[item["algo"]]
-    its = [i for i in c14.items(item["tier"], item["seed"]) if i["kind"] == "history" and i["cfg"]["learner"] == learner]
-    first = its[0]["cfg"]["cfg"]
-    its = [i for i in its if i["cfg"]["cfg"] == first]
+    first = item["config"]
+    its = [i for i in c14.items(item["tier"], item["seed"]) if i["kind"] == "history" and i["cfg"]["learner"] == learner and i["cfg"]["cfg"] == first]
     proxy = _Relabel(col)
     for it in its:
         c14.work(it, proxy)
+    if first is not None:
+        col.sample(dict(kind="tabular prefix differencing (C14 history oracle)", learner=item["algo"], config=first, items=len(its)))
+        return
     # acting: with epsilon 0 the action passed to the environment must be greedy, on the table held before the
     # step, AT THE CURRENT OBSERVATION (C13's tabular-loop oracle, re-labelled)
     from checks import c13
@@ -547,11 +569,85 @@ def tabular_item(item, col):
     proxy2 = _Relabel(col, "acting-not-conditioned-on-the-current-observation:")
     for it in acting:
         c13.work(it, proxy2)
-    col.sample(dict(kind="tabular prefix differencing (C14 history oracle)", learner=item["algo"], config=first, items=len(its)))
+    col.sample(dict(kind="tabular acting (C13 tabular-loop oracle)", learner=item["algo"], items=len(acting)))
+
+
+def readback_item(item, col):
+    """lr = 1, gamma = 0, every step in a state of its own: after the run the table holds r_t at (o_t, a_t) for every
+    transition of the environment log that a learner has consumed, and its initial value everywhere else."""
+    import gymnasium as gym
+
+    from rl_blox.algorithm import double_q_learning, dynaq, monte_carlo, q_learning, sarsa
+
+    algo = item["algo"]
+    entry = "train_" + algo
+    NA = 3
+    for script, logged, eps in itertools.product(item["scripts"], (False, True), (1.0, 0.5)):
+        T = len(script)
+        S = 2 * T + 4
+        base = senv.ScriptEnv(script, discrete=True, n_actions=NA, discrete_obs=S, horizon=T,
+                              reward_fn=lambda e, lvl: float(e.t) + 0.5)
+        env = gym.wrappers.RecordEpisodeStatistics(base) if logged else base
+        logger = D.RecLogger() if logged else None
+        rng = np.random.default_rng(item["seed"] + 5)
+        q0 = (rng.integers(-3, 4, size=(S, NA)) * 0.25 - 100.0).astype(np.float32)
+        kw = dict(epsilon=eps, gamma=0.0, total_timesteps=T, seed=1 + item["seed"], progress_bar=False, logger=logger)
+        det = dict(algo=entry, script=script, logger=logged, epsilon=eps)
+        col.tick(1, (algo, script, logged, eps))
+        try:
+            if algo == "q_learning":
+                tabs = [np.asarray(q_learning.train_q_learning(env, jnp.asarray(q0), learning_rate=1.0, **kw))]
+            elif algo == "sarsa":
+                tabs = [np.asarray(sarsa.train_sarsa(env, jnp.asarray(q0), learning_rate=1.0, **kw))]
+            elif algo == "double_q_learning":
+                o = double_q_learning.train_double_q_learning(env, jnp.asarray(q0), jnp.asarray(q0), learning_rate=1.0, **kw)
+                tabs = [np.asarray(o[0]), np.asarray(o[1])]
+            elif algo == "dynaq":
+                tabs = [np.asarray(dynaq.train_dynaq(env, jnp.asarray(q0), learning_rate=1.0, n_planning_steps=0, buffer_size=50, **kw))]
+            else:
+                tabs = [np.asarray(monte_carlo.train_monte_carlo(env, jnp.asarray(q0), **kw)[0])]
+        except Exception as e:  # noqa: BLE001
+            col.violation(SIG.format(entry, "tabular-run-raised-on-a-well-behaved-environment"), dict(det, error=f"{type(e).__name__}: {str(e)[:200]}"))
+            continue
+        trans = base.transitions()
+        if logged:
+            col.outcome("tabular_runs_with_logger")
+        if sum(1 for t in trans if t[4] or t[5]) >= 10:
+            col.outcome("tabular_runs_with_ten_or_more_episodes")
+        consumed = list(trans)
+        if algo == "monte_carlo":
+            # only complete episodes are learned from
+            last_end = max([i for i, t in enumerate(trans) if t[4] or t[5]], default=-1)
+            consumed = trans[: last_end + 1]
+        exp = [q0.astype(np.float64).copy() for _ in tabs]
+        bad = None
+        touched = set()
+        for (o, a, r, o2, term, trunc) in consumed:
+            touched.add((int(o), int(a)))
+        for (o, a, r, o2, term, trunc) in consumed:
+            o, a = int(o), int(a)
+            vals = [float(t[o, a]) for t in tabs]
+            if len(tabs) == 1:
+                ok = vals[0] == float(np.float32(r))
+            else:
+                ok = sorted(vals) == sorted([float(np.float32(r)), float(q0[o, a])])
+            if not ok and bad is None:
+                bad = dict(observation=o, action=a, reward=r, table_entries=vals, initial=float(q0[o, a]))
+        if bad is not None:
+            col.violation(SIG.format(entry, "tabular-update-not-from-the-env-transition:entry(o_t,a_t)!=r_t"), dict(det, **bad))
+            continue
+        for t in tabs:
+            diff = [(int(i), int(j)) for i, j in zip(*np.nonzero(t != q0)) if (int(i), int(j)) not in touched]
+            if diff:
+                col.violation(SIG.format(entry, "tabular-update-not-from-the-env-transition:entry-never-visited-changed"), dict(det, entries=diff[:5]))
+                break
+    col.sample(dict(kind="tabular readback (lr=1, gamma=0)", learner=algo, scripts=item["scripts"][:4]))
 
 
 def work(item, col):
     k = item["kind"]
+    if k == "tabular-readback":
+        return readback_item(item, col)
     if k == "off":
         return off_item(item, col)
     if k == "reinforce":
